@@ -187,7 +187,10 @@ def float_to_fix(signed, n_bits, n_frac):
         if value < 0:
             fp_val = (1 << n_bits) + int(value * 2**n_frac)
         else:
-            fp_val = int(value * 2**n_frac)
+            # max_v is a float: for formats wider than a double's mantissa it
+            # rounds up to one past the largest representable value
+            fp_val = min(int(value * 2**n_frac),
+                         (1 << (n_bits - (1 if signed else 0))) - 1)
 
         assert 0 <= fp_val < 1 << (n_bits + 1)
         return fp_val & mask
